@@ -52,7 +52,7 @@ RANDOM_OPTS = {
     'script_ops': ['ret', 'ret', 'fire', 'raise', 'yield', 'yield', 'call', 'wait'], 'flags': [0, 1, 2, 3, 8, 9, 11], 'maxfire': 2,
     'maxops_script': 4, 'targets': [None, '*'], 'p_script': 0.9,
     'hist_ops': ['fire', 'fire', 'flush', 'tick'], 'histlen': (2, 6), 'ext_names': 2, 'p_attach': 1.0,
-    'p_raise_base': 0.3, 'p_noevent': 0.15,
+    'p_raise_base': 0.3, 'p_noevent': 0.15, 'p_feedback_ch': 0.3,
 }
 
 
